@@ -242,6 +242,136 @@ def check_case(case):
     return out
 
 
+# ---------------- an fsync that FAILS: nothing it covered may be relied on ----------------
+FS_OPS = ["append", "multi", "delete", "expire", "set_prop"]
+
+
+def _fs_op(t, op):
+    import copy
+
+    if op == "append":
+        t.append_records([{"k": 7, "s": "x"}])
+    elif op == "multi":
+        with t.new_transaction() as tx:
+            tx.append_data([{"k": 8, "s": "y"}])
+            tx.append_data([{"k": 9, "s": "z"}])
+            tx.commit()
+    elif op == "delete":
+        p = sorted(df.file_path for df in t._get_all_data_files())[0]
+        with t.new_transaction() as tx:
+            tx.delete_files([p])
+            tx.commit()
+    elif op == "expire":
+        with t.new_transaction() as tx:
+            tx.expire_snapshots(10**15)
+            tx.commit()
+    elif op == "set_prop":
+        mm = t.metadata_manager
+        b = mm.refresh()
+        n = copy.deepcopy(b)
+        n.properties["p"] = "v"
+        mm.commit(b, n)
+
+
+def check_fsync_fault(case):
+    """The k-th fsync issued by an operation (file or directory) raises EIO. In the power-loss model a failed fsync made
+    nothing durable. Whether the operation then reports failure or success: at every pointer flip it still performs,
+    everything reachable must be durable."""
+    import collections
+
+    import datashard
+    from ..hist import FIELDS
+    from ..tbl import make_schema
+
+    out = {"violations": [], "labels": [], "nontrivial": False, "nt_keys": set(), "prefixes": 0}
+    labels = collections.Counter()
+    with scratch_dir("c16f") as d:
+        root = os.path.realpath(d) + "/t"
+        tr = Tracer(root)
+        tr.record = False
+        full = []
+        state = {"op": "create", "armed": False, "n": 0, "fired": None}
+
+        def rec(n, phase, layer, name, target, info):
+            if state["armed"] and phase == "before" and name == "os.fsync":
+                state["n"] += 1
+                if state["n"] == case["k"]:
+                    state["fired"] = target
+                    raise OSError(5, "injected: fsync failed")
+            if phase == "after" and name == "os.replace" and target == HINT:
+                try:
+                    with open(os.path.join(root, HINT), "rb") as fh:
+                        info = dict(info or {}, pointer_content=fh.read())
+                except OSError:
+                    pass
+            full.append((n, phase, layer, name, target, info, state["op"]))
+
+        tr.handler = rec
+        outcome = "ok"
+        with installed(tr, storage_level=False):
+            t = datashard.create_table(root, make_schema(FIELDS))
+            state["op"] = "base"
+            t.append_records([{"k": 1, "s": "a"}])
+            with t.new_transaction() as tx:
+                tx.append_data([{"k": 2, "s": "b"}])
+                tx.append_data([{"k": 3, "s": "c"}])
+                tx.commit()
+            state["op"] = case["op"]
+            state["armed"] = True
+            try:
+                _fs_op(t, case["op"])
+            except Exception as e:  # noqa
+                outcome = f"raise:{type(e).__name__}"
+            state["armed"] = False
+            state["op"] = "follow-up"
+            try:
+                datashard.load_table(root).append_records([{"k": 50, "s": "after"}])
+            except Exception:
+                labels["follow-up-raised"] += 1
+        out["fsyncs"] = state["n"]
+        if state["fired"] is None:
+            out["labels"] = ["fsync-fault-not-reached"]
+            return out
+        on_dir = os.path.isdir(os.path.join(root, state["fired"]))
+        labels[f"fsync-fault:{'dir' if on_dir else 'file'}"] += 1
+        labels[f"fsync-fault-outcome:{outcome.split(':')[0]}"] += 1
+        _evaluate(full, root, out, labels)
+        if on_dir and out["violations"]:
+            # one root cause whatever the symptom: LocalStorageBackend.write_file / DataFileWriter.close swallow every OSError of the directory fsync
+            out["violations"] = [("failed-directory-fsync-swallowed", out["violations"][0][1] + f" [the {case['k']}-th fsync of {case['op']} (on directory {state['fired']!r}) had failed with EIO; the operation reported {outcome}]")]
+            out["nontrivial"] = True
+            out["nt_keys"] = {f"fsyncfault|{case['op']}|{c04.norm_label('os.fsync', state['fired'])}"}
+            out["labels"] = sorted(labels)
+            return out
+        out["violations"] = [(b + "/after-failed-fsync", w + f" [the {case['k']}-th fsync of {case['op']} (on {state['fired']}) had failed with EIO; the operation reported {outcome}]") for b, w in out["violations"]]
+        out["nontrivial"] = True
+        out["nt_keys"] = {f"fsyncfault|{case['op']}|{c04.norm_label('os.fsync', state['fired'])}"}
+    out["labels"] = sorted(labels)
+    return out
+
+
+def run_fsync_faults(task):
+    res = Result()
+    op = task["op"]
+    keys = set()
+    nf = check_fsync_fault({"kind": "fsyncfault", "op": op, "k": 0}).get("fsyncs", 0)  # fault-free run: how many fsyncs the operation issues
+    k = 1
+    while k <= nf:
+        case = {"kind": "fsyncfault", "op": op, "k": k}
+        o = check_fsync_fault(case)
+        keys.update(o.pop("nt_keys"))
+        res.case(key=None, nontrivial=False, labels=o["labels"] + ["fsync-fault"], sample=case if k % 5 == 1 else None)
+        res.evaluations += max(o["prefixes"] - 1, 0)
+        for b, w in o["violations"]:
+            res.violation(b, w, case)
+        k += 1
+        if k > 200:
+            break
+    res.nontrivial.update(keys)
+    res.extra["fsync_fault_every_fsync_of_each_operation"] = True
+    return res
+
+
 # ---------------- several threads committing through ONE table handle ----------------
 def check_conc(case):
     """Two committers share one Table object (threads of one process), a third commit follows through the same handle;
@@ -345,6 +475,7 @@ def plan(tier, seed):
     ns = 4 if tier == "quick" else 8
     for ops in (CONC_FIXED[:1] if tier == "quick" else CONC_FIXED):
         tasks += [{"kind": "conc_enum", "ops": ops, "shard": s_, "nshard": ns} for s_ in range(ns)]
+    tasks += [{"kind": "fsync_fault", "op": op} for op in FS_OPS]
     tasks += [{"kind": "conc_pct", "n": 25 if tier == "quick" else 600, "seed": seed * 1000 + 700 + s, "tier": tier} for s in range(4 if tier == "quick" else 16)]
     return tasks
 
@@ -352,6 +483,8 @@ def plan(tier, seed):
 def run_task(task):
     if task.get("kind") == "conc_enum":
         return run_conc_enum(task)
+    if task.get("kind") == "fsync_fault":
+        return run_fsync_faults(task)
     res = Result()
     keys = set()
     prefixes = [0]
@@ -384,6 +517,9 @@ def run_task(task):
 
 
 def replay(case):
+    if case.get("kind") == "fsyncfault":
+        o = check_fsync_fault(case)
+        return [{"bucket": b, "what": w} for b, w in o["violations"]]
     if case.get("kind") == "conc":
         o = check_conc(case)
         return [{"bucket": b + "/shared-handle", "what": w} for b, w in o["violations"]]
